@@ -279,16 +279,86 @@ theorem pair_mc {cfg : Cfg Rat} {recs : List (Bytes × Bytes)} {groups : List Gr
       have := hlt f hf hfk
       rw [hmd]; exact this
 
+theorem emit_gen {T : List (List Nat)} {f : Pep Rat} (hwf : WF f) (hfd : f.decoy = false) :
+    emit true T f = (if (mirror f).sequence ∈ T then [] else [mirror f]) ++ [f] := by
+  unfold emit
+  rw [reverse_eq_mirror f hwf]
+  simp only [if_true, List.filter_cons, mirror_decoy, hfd, Bool.not_false, Bool.not_true, Bool.false_or,
+    Bool.true_or, List.filter_nil]
+  by_cases h : (mirror f).sequence ∈ T
+  · simp [h]
+  · simp [h]
+
+theorem buildForms_eq (cfg : Cfg Rat) (groups : List Group) :
+    buildForms cfg groups = (groups.flatMap (groupForms cfg)).flatMap (emit cfg.gen (targetSet groups)) := by
+  unfold buildForms
+  rw [List.flatMap_assoc]
+
+theorem mem_base {cfg : Cfg Rat} {recs : List (Bytes × Bytes)} {groups : List Group}
+    (hg : groupDigests (fastaDigest cfg.par cfg.tag cfg.gen recs) = some groups) (hgen : cfg.gen = true)
+    {f : Pep Rat} (hf : f ∈ groups.flatMap (groupForms cfg)) :
+    WF f ∧ f.decoy = false ∧ f.sequence ∈ targetSet groups := by
+  obtain ⟨g, hgm, hfg⟩ := List.mem_flatMap.mp hf
+  obtain ⟨hseq, hdec, _, _, hwf⟩ := mem_groupForms hfg
+  exact ⟨hwf, by rw [hdec]; exact gen_groups hg hgen g hgm,
+    mem_targetSet.mpr ⟨g, hgm, gen_groups hg hgen g hgm, hseq.symm⟩⟩
+
+/-- generated decoys: a decoy entry and the target entry with the mirrored key list the same proteins in
+    the same order already before sorting (the decoy's sources are the mirror images of the target's
+    sources, generated in the same order) -/
+theorem pair_proteins_list {cfg : Cfg Rat} {recs : List (Bytes × Bytes)} {groups : List Group}
+    (hg : groupDigests (fastaDigest cfg.par cfg.tag cfg.gen recs) = some groups) (hgen : cfg.gen = true)
+    {t' d' : Pep Rat}
+    (ht : t' ∈ mergeFuel (buildForms cfg groups).length (buildForms cfg groups))
+    (hd : d' ∈ mergeFuel (buildForms cfg groups).length (buildForms cfg groups))
+    (hk : keyOf d' = mirrorKey (keyOf t')) (htT : t'.sequence ∈ targetSet groups)
+    (hdT : d'.sequence ∉ targetSet groups) : d'.proteins = t'.proteins := by
+  rw [mergeFuel_proteins_eq _ _ (Nat.le_refl _) d' hd, mergeFuel_proteins_eq _ _ (Nat.le_refl _) t' ht]
+  rw [buildForms_eq]
+  have hbase : ∀ f ∈ groups.flatMap (groupForms cfg), WF f ∧ f.decoy = false ∧ f.sequence ∈ targetSet groups :=
+    fun f hf => mem_base hg hgen hf
+  generalize groups.flatMap (groupForms cfg) = base at hbase
+  induction base with
+  | nil => simp
+  | cons f base ih =>
+  simp only [List.flatMap_cons, List.filter_append, List.flatMap_append]
+  rw [ih (fun x hx => hbase x (List.mem_cons_of_mem _ hx))]
+  congr 1
+  obtain ⟨hwf, hfd, hfT⟩ := hbase f (by simp)
+  have seqOf : ∀ {a b : Pep Rat}, keyOf a = keyOf b → a.sequence = b.sequence :=
+    fun h => congrArg (fun k => k.2.1) h
+  rw [hgen, emit_gen hwf hfd]
+  -- `f` never has the decoy's key, its mirror image never has the target's key
+  have h1 : sameKey f d' = false := by
+    rw [sameKey_false_iff]; intro h; exact hdT (by rw [← seqOf h]; exact hfT)
+  by_cases hkf : keyOf f = keyOf t'
+  · have hmk : keyOf (mirror f) = keyOf d' := by rw [keyOf_mirror, hkf, hk]
+    have hnot : (mirror f).sequence ∉ targetSet groups := by rw [seqOf hmk]; exact hdT
+    have h2 : sameKey (mirror f) d' = true := (sameKey_iff _ _).mpr hmk
+    have h3 : sameKey (mirror f) t' = false := by
+      rw [sameKey_false_iff]; intro h; exact hnot (by rw [seqOf h]; exact htT)
+    have h4 : sameKey f t' = true := (sameKey_iff _ _).mpr hkf
+    simp [hnot, h1, h2, h3, h4, mirror_proteins]
+  · have h4 : sameKey f t' = false := (sameKey_false_iff _ _).mpr hkf
+    have h2 : sameKey (mirror f) d' = false := by
+      rw [sameKey_false_iff]; intro h
+      apply hkf; apply mirrorKey_inj; rw [← keyOf_mirror, h, hk]
+    by_cases hin : (mirror f).sequence ∈ targetSet groups
+    · simp [hin, h1, h4]
+    · have h3 : sameKey (mirror f) t' = false := by
+        rw [sameKey_false_iff]; intro h; exact hin (by rw [seqOf h]; exact htT)
+      simp [hin, h1, h2, h3, h4]
+
 /-- **C07.decoy_reverses_unique_target** — with generated decoys every decoy entry is the reversal of
     exactly one target entry of the database: that target has the mirrored sequence and modification
-    vector (so reversing the decoy gives it back), the same terminal modifications, mass, proteins and
-    missed-cleavage count,
+    vector (so reversing the decoy gives it back), the same terminal modifications, mass, protein list
+    (equal as lists, same order) and missed-cleavage count,
     and it is the only entry with that form. -/
 theorem decoy_reverses_unique_target (cfg : Cfg Rat) (recs : List (Bytes × Bytes)) (db : List (Pep Rat))
     (h : digestRecs cfg recs = some db) (hgen : cfg.gen = true) :
     ∀ d ∈ db, d.decoy = true →
       ∃ t ∈ db, t.decoy = false ∧ keyOf t = keyOf (mirror d) ∧ keyOf d = keyOf (mirror t) ∧
-        (∀ x, x ∈ d.proteins ↔ x ∈ t.proteins) ∧ d.mc = t.mc ∧ ∀ t2 ∈ db, keyOf t2 = keyOf t → t2 = t := by
+        d.proteins = t.proteins ∧ d.mc = t.mc ∧ ∀ t2 ∈ db, keyOf t2 = keyOf t → t2 = t := by
   obtain ⟨groups, hg, rfl⟩ := digestRecs_some h
   intro d hd hdd
   obtain ⟨d', hd', rfl⟩ := mem_reorder.mp hd
@@ -313,10 +383,8 @@ theorem decoy_reverses_unique_target (cfg : Cfg Rat) (recs : List (Bytes × Byte
   · show keyOf t' = mirrorKey (keyOf d')
     rw [hkd, mirrorKey_mirrorKey]
   · exact hkd
-  · intro x
-    show x ∈ sortDedup d'.proteins ↔ x ∈ sortDedup t'.proteins
-    rw [mem_sortDedup, mem_sortDedup]
-    exact pair_proteins hg hgen ht' hd' hkd (by rw [seqOf hkt]; exact hfT) (by rw [seqOf hk0]; exact hnT) x
+  · show sortDedup d'.proteins = sortDedup t'.proteins
+    rw [pair_proteins_list hg hgen ht' hd' hkd (by rw [seqOf hkt]; exact hfT) (by rw [seqOf hk0]; exact hnT)]
   · show d'.mc = t'.mc
     exact pair_mc hg hgen ht' hd' hkd (by rw [seqOf hkt]; exact hfT) (by rw [seqOf hk0]; exact hnT)
   · intro t2 ht2 hk2
@@ -333,7 +401,7 @@ theorem decoy_reverses_unique_target (cfg : Cfg Rat) (recs : List (Bytes × Byte
 theorem pairing_complete (cfg : Cfg Rat) (recs : List (Bytes × Bytes)) (db : List (Pep Rat))
     (h : digestRecs cfg recs = some db) (hgen : cfg.gen = true) :
     ∀ t ∈ db, t.decoy = false → mirrorList t.sequence ∉ specTargets cfg.par cfg.tag recs →
-      ∃ d ∈ db, d.decoy = true ∧ keyOf d = keyOf (mirror t) ∧ (∀ x, x ∈ d.proteins ↔ x ∈ t.proteins) ∧
+      ∃ d ∈ db, d.decoy = true ∧ keyOf d = keyOf (mirror t) ∧ d.proteins = t.proteins ∧
         d.mc = t.mc := by
   obtain ⟨groups, hg, rfl⟩ := digestRecs_some h
   intro t ht htd hnot
@@ -368,10 +436,8 @@ theorem pairing_complete (cfg : Cfg Rat) (recs : List (Bytes × Bytes)) (db : Li
     rcases gen_forms hg hgen hs2 with ⟨_, hT, _⟩ | ⟨hd2, _⟩
     · exact absurd (by rw [← seqOf hk2]; exact hT) hdT
     · exact hd2
-  · intro x
-    show x ∈ sortDedup d'.proteins ↔ x ∈ sortDedup t'.proteins
-    rw [mem_sortDedup, mem_sortDedup]
-    exact pair_proteins hg hgen ht' hd' hkd' (by rw [← seqOf hks]; exact hsT) hdT x
+  · show sortDedup d'.proteins = sortDedup t'.proteins
+    rw [pair_proteins_list hg hgen ht' hd' hkd' (by rw [← seqOf hks]; exact hsT) hdT]
 
 
 
@@ -507,6 +573,383 @@ example :
     proteinNames [114, 101, 118, 95] true samplePep = [[80, 49]] ∧
     proteinsStr [114, 101, 118, 95] true { reverse samplePep with proteins := [[80, 49], [81]] } =
       [114, 101, 118, 95, 80, 49, 59, 114, 101, 118, 95, 81] := by
+  decide
+
+
+
+/-! ## `model_meets_spec` -/
+
+/-- records with the tag removed -/
+def untagged (tag : Bytes) (recs : List (Bytes × Bytes)) : List (Bytes × Bytes) :=
+  recs.filter fun r => !C05.containsSub r.1 tag
+
+theorem flush_rel (tag : Bytes) (st1 st2 : C05.FState)
+    (h1 : st1.targets = untagged tag st2.targets) (h2 : st1.lastId = st2.lastId) (h3 : st1.s = st2.s) :
+    C05.flush tag true st1 = (C05.flush tag false st2).map (untagged tag) := by
+  unfold C05.flush
+  rw [h2, h3]
+  by_cases he : st2.s.isEmpty = true
+  · simp [he, h1]
+  · simp only [he]
+    cases C05.firstToken st2.lastId with
+    | none => simp
+    | some acc =>
+      cases hc : C05.containsSub acc tag <;> simp [C05.keep, hc, h1, untagged, List.filter_append]
+
+theorem step_rel (tag : Bytes) (l : C05.Seq) (st1 st2 : C05.FState)
+    (h1 : st1.targets = untagged tag st2.targets) (h2 : st1.lastId = st2.lastId) (h3 : st1.s = st2.s) :
+    (C05.step tag true st1 l = none ∧ C05.step tag false st2 l = none) ∨
+    ∃ a b, C05.step tag true st1 l = some a ∧ C05.step tag false st2 l = some b ∧
+      a.targets = untagged tag b.targets ∧ a.lastId = b.lastId ∧ a.s = b.s := by
+  unfold C05.step
+  by_cases hl : l.isEmpty = true
+  · simp only [hl, if_true]; exact Or.inr ⟨st1, st2, rfl, rfl, h1, h2, h3⟩
+  · have hl' : l.isEmpty = false := by simpa using hl
+    simp only [hl', Bool.false_eq_true, if_false]
+    generalize C05.trim l = tl
+    split
+    · rw [flush_rel tag st1 st2 h1 h2 h3]
+      cases hf : C05.flush tag false st2 with
+      | none => left; simp
+      | some t => right; exact ⟨_, _, rfl, rfl, rfl, rfl, rfl⟩
+    · right; exact ⟨_, _, rfl, rfl, h1, h2, by simp [h3]⟩
+
+theorem parseLines_rel (tag : Bytes) (ls : List C05.Seq) (st1 st2 : C05.FState)
+    (h1 : st1.targets = untagged tag st2.targets) (h2 : st1.lastId = st2.lastId) (h3 : st1.s = st2.s) :
+    C05.parseLines tag true ls st1 = (C05.parseLines tag false ls st2).map (untagged tag) := by
+  induction ls generalizing st1 st2 with
+  | nil => exact flush_rel tag st1 st2 h1 h2 h3
+  | cons l ls ih =>
+    unfold C05.parseLines
+    rcases step_rel tag l st1 st2 h1 h2 h3 with ⟨ha, hb⟩ | ⟨a, b, ha, hb, r1, r2, r3⟩
+    · rw [ha, hb]; rfl
+    · rw [ha, hb]; exact ih a b r1 r2 r3
+
+/-- `Fasta::parse` with `generate_decoys = true` delivers the records it delivers with `false`, minus the
+    tagged ones -/
+theorem parse_gen (tag text : Bytes) :
+    C05.parse tag true text = (C05.parse tag false text).map (untagged tag) := by
+  unfold C05.parse
+  exact parseLines_rel tag _ _ _ rfl rfl rfl
+
+theorem specTargets_untagged (par : C05.Params) (tag : Bytes) (recs : List (Bytes × Bytes)) :
+    specTargets par tag (untagged tag recs) = specTargets par tag recs := by
+  unfold specTargets untagged
+  rw [List.filter_filter]
+  congr 1
+  apply List.filter_congr
+  intro r _; simp
+
+
+/-- the mass the formula of C06 assigns to a form -/
+def massOf (cfg : Cfg Rat) (seq : List Nat) (mods : List Rat) (nt ct : Option Rat) : Rat :=
+  cfg.h2o + (seq.map (C06.monoisotopic cfg.table)).sum + mods.sum + nt.getD 0 + ct.getD 0
+
+theorem groupForms_mass {cfg : Cfg Rat} {g : Group} {f : Pep Rat} (h : f ∈ groupForms cfg g) :
+    f.mono = massOf cfg f.sequence f.mods f.nterm f.cterm := by
+  unfold groupForms at h
+  simp only [List.mem_map] at h
+  obtain ⟨c, hc, rfl⟩ := h
+  obtain ⟨p, hp, hap, _, _⟩ := (C06.range_filter _ _ _ _ _ _ _ _ _ c).mp hc
+  obtain ⟨hs, _, _, hm⟩ := C06.mass_formula _ _ _ _ _ _ _ p hp c hap
+  show c.mono = massOf cfg c.sequence c.mods c.nterm c.cterm
+  rw [hm, hs]; rfl
+
+/-- generated decoys: a non-decoy entry has a target form as a source -/
+theorem target_entry_source {cfg : Cfg Rat} {recs : List (Bytes × Bytes)} {groups : List Group}
+    (hg : groupDigests (fastaDigest cfg.par cfg.tag cfg.gen recs) = some groups) (hgen : cfg.gen = true)
+    {t' : Pep Rat} (ht : t' ∈ mergeFuel (buildForms cfg groups).length (buildForms cfg groups))
+    (htd : t'.decoy = false) :
+    ∃ g ∈ groups, ∃ f ∈ groupForms cfg g, keyOf f = keyOf t' ∧ f.sequence ∈ targetSet groups := by
+  obtain ⟨_, hdec, _⟩ := mem_mergeFuel _ _ (Nat.le_refl _) t' ht
+  have hsrc : ∃ s ∈ buildForms cfg groups, keyOf s = keyOf t' ∧ s.decoy = false := by
+    by_contra hcon
+    have : t'.decoy = true := hdec.mpr (fun s hs hk => by
+      cases hb : s.decoy with
+      | true => rfl
+      | false => exact absurd ⟨s, hs, hk, hb⟩ hcon)
+    rw [this] at htd; cases htd
+  obtain ⟨s, hs, hks, hsd⟩ := hsrc
+  obtain ⟨g, hgm, f, hf, hem⟩ := mem_buildForms.mp hs
+  obtain ⟨hseq, hdecf, _, _, hwf⟩ := mem_groupForms hf
+  have hfd : f.decoy = false := by rw [hdecf]; exact gen_groups hg hgen g hgm
+  rcases (mem_emit.mp hem).1 with rfl | ⟨_, rfl⟩
+  · exact ⟨g, hgm, s, hf, hks, mem_targetSet.mpr ⟨g, hgm, gen_groups hg hgen g hgm, hseq.symm⟩⟩
+  · rw [(reverse_preserves f hwf).2.2.2.2.2.2.2.1, hfd] at hsd; cases hsd
+
+theorem filter_length_one {β κ : Type} {K : β → κ} {P : β → Bool} {l : List β}
+    (hpw : l.Pairwise (fun a b => K a ≠ K b)) {t : β} (ht : t ∈ l) (hPt : P t = true)
+    (huniq : ∀ x ∈ l, P x = true → K x = K t) : (l.filter P).length = 1 := by
+  induction l with
+  | nil => simp at ht
+  | cons a l ih =>
+    obtain ⟨h1, h2⟩ := List.pairwise_cons.mp hpw
+    rcases List.mem_cons.mp ht with rfl | ht'
+    · have : l.filter P = [] := by
+        rw [List.filter_eq_nil_iff]
+        intro x hx hpx
+        exact h1 x hx (huniq x (List.mem_cons_of_mem _ hx) hpx).symm
+      simp [hPt, this]
+    · have hPa : P a = false := by
+        cases hb : P a with
+        | false => rfl
+        | true => exact absurd (huniq a (by simp) hb) (h1 t ht')
+      rw [List.filter_cons, hPa]
+      simp only [Bool.false_eq_true, if_false]
+      exact ih h2 ht' (fun x hx => huniq x (List.mem_cons_of_mem _ hx))
+
+theorem sameForm_iff (a b : Pep Rat) :
+    sameForm a b = true ↔ a.sequence = b.sequence ∧ a.mods = b.mods ∧ a.nterm = b.nterm ∧ a.cterm = b.cterm := by
+  simp [sameForm, and_assoc]
+
+theorem keyOf_eq_iff (a b : Pep Rat) :
+    keyOf a = keyOf b ↔ a.mono = b.mono ∧ a.sequence = b.sequence ∧ a.mods = b.mods ∧ a.nterm = b.nterm ∧
+      a.cterm = b.cterm := by
+  simp [keyOf]
+
+theorem contains_iff {T : List (List Nat)} {x : List Nat} : T.contains x = true ↔ x ∈ T := by simp
+
+theorem pairOk_of {d t : Pep Rat} (hd : d.decoy = true) (ht : t.decoy = false)
+    (hk : keyOf t = keyOf (mirror d)) (hk' : keyOf d = keyOf (mirror t))
+    (hp : d.proteins = t.proteins) (hm : d.mc = t.mc) : pairOk d t = true := by
+  rw [keyOf_eq_iff] at hk hk'
+  have h1 : sameForm (mirror t) d = true := (sameForm_iff _ _).mpr ⟨hk'.2.1.symm, hk'.2.2.1.symm, hk'.2.2.2.1.symm, hk'.2.2.2.2.symm⟩
+  have h2 : sameForm (mirror d) t = true := (sameForm_iff _ _).mpr ⟨hk.2.1.symm, hk.2.2.1.symm, hk.2.2.2.1.symm, hk.2.2.2.2.symm⟩
+  have h3 : d.mono = t.mono := hk'.1
+  simp [pairOk, hd, ht, h1, h2, h3, hp, hm]
+
+/-- generated decoys: the four clauses hold of the model's database -/
+theorem gen_clauses (cfg : Cfg Rat) (recs : List (Bytes × Bytes)) (db : List (Pep Rat))
+    (h : digestRecs cfg recs = some db) (hgen : cfg.gen = true) :
+    clNoCollision (specTargets cfg.par cfg.tag recs) db = true ∧
+    clTargetsKnown (specTargets cfg.par cfg.tag recs) db = true ∧
+    clDecoyPaired db = true ∧
+    clTargetPaired (specTargets cfg.par cfg.tag recs) db = true := by
+  have hA := no_decoy_is_target cfg recs db h
+  have hC := decoy_reverses_unique_target cfg recs db h hgen
+  have hD := pairing_complete cfg recs db h hgen
+  obtain ⟨groups, hg, hdb⟩ := digestRecs_some h
+  refine ⟨?_, ?_, ?_, ?_⟩
+  · unfold clNoCollision
+    rw [List.all_eq_true]
+    intro e he
+    cases hd : e.decoy with
+    | false => simp
+    | true => simpa using hA e he hd
+  · unfold clTargetsKnown
+    rw [List.all_eq_true]
+    intro e he
+    cases hd : e.decoy with
+    | true => simp
+    | false =>
+      subst hdb
+      obtain ⟨e', he', rfl⟩ := mem_reorder.mp he
+      obtain ⟨g, _, f, _, hk, hT⟩ := target_entry_source hg hgen he' hd
+      have : (finishProteins e').sequence = f.sequence := ((keyOf_eq_iff _ _).mp hk).2.1.symm
+      rw [targetSet_iff hg] at hT
+      simpa [this] using hT
+  · unfold clDecoyPaired
+    rw [List.all_eq_true]
+    intro d hd
+    cases hdd : d.decoy with
+    | false => simp
+    | true =>
+      obtain ⟨t, ht, htd, hk, hk', hp, hm, huniq⟩ := hC d hd hdd
+      have hpair := pairOk_of hdd htd hk hk' hp hm
+      have hform : sameForm (mirror d) t = true := by
+        rw [keyOf_eq_iff] at hk
+        exact (sameForm_iff _ _).mpr ⟨hk.2.1.symm, hk.2.2.1.symm, hk.2.2.2.1.symm, hk.2.2.2.2.symm⟩
+      have hcount : (db.filter fun t => !t.decoy && sameForm (mirror d) t).length = 1 := by
+        subst hdb
+        have hpw : (reorder (buildForms cfg groups)).Pairwise (fun a b => keyOf a ≠ keyOf b) := by
+          unfold reorder mergeAll
+          rw [List.pairwise_map]
+          exact mergeFuel_pairwise _ _ (Nat.le_refl _)
+        refine filter_length_one (K := keyOf) hpw ht (by simp [htd, hform]) ?_
+        intro x hx hPx
+        simp only [Bool.and_eq_true, Bool.not_eq_true'] at hPx
+        obtain ⟨x', hx', rfl⟩ := mem_reorder.mp hx
+        obtain ⟨t', ht', rfl⟩ := mem_reorder.mp ht
+        obtain ⟨g1, hg1, f1, hf1, hk1, _⟩ := target_entry_source hg hgen hx' hPx.1
+        obtain ⟨g2, hg2, f2, hf2, hk2, _⟩ := target_entry_source hg hgen ht' htd
+        have e1 := (sameForm_iff _ _).mp hPx.2
+        have e2 := (sameForm_iff _ _).mp hform
+        have m1 := groupForms_mass hf1
+        have m2 := groupForms_mass hf2
+        rw [keyOf_eq_iff] at hk1 hk2
+        show keyOf x' = keyOf t'
+        rw [keyOf_eq_iff]
+        have hs : x'.sequence = t'.sequence := e1.1.symm.trans e2.1
+        have hmo : x'.mods = t'.mods := e1.2.1.symm.trans e2.2.1
+        have hn : x'.nterm = t'.nterm := e1.2.2.1.symm.trans e2.2.2.1
+        have hc : x'.cterm = t'.cterm := e1.2.2.2.symm.trans e2.2.2.2
+        refine ⟨?_, hs, hmo, hn, hc⟩
+        rw [← hk1.1, ← hk2.1, m1, m2, hk1.2.1, hk1.2.2.1, hk1.2.2.2.1, hk1.2.2.2.2,
+          hk2.2.1, hk2.2.2.1, hk2.2.2.2.1, hk2.2.2.2.2, hs, hmo, hn, hc]
+      simp only [Bool.not_true, Bool.false_or, Bool.and_eq_true, beq_iff_eq, List.any_eq_true]
+      exact ⟨hcount, t, ht, hpair⟩
+  · unfold clTargetPaired
+    rw [List.all_eq_true]
+    intro t ht
+    cases htd : t.decoy with
+    | true => simp
+    | false =>
+      by_cases hin : mirrorList t.sequence ∈ specTargets cfg.par cfg.tag recs
+      · simp [hin]
+      · obtain ⟨d, hd, hdd, hk', hp, hm⟩ := hD t ht htd hin
+        have hk : keyOf t = keyOf (mirror d) := by
+          rw [keyOf_mirror, hk', keyOf_mirror, mirrorKey_mirrorKey]
+        have := pairOk_of hdd htd hk hk' hp hm
+        simp only [Bool.false_or, Bool.or_eq_true, List.any_eq_true]
+        exact Or.inr ⟨d, hd, this⟩
+
+/-- FASTA decoys: the two clauses hold of the model's database -/
+theorem fasta_clauses (cfg : Cfg Rat) (recs : List (Bytes × Bytes)) (db : List (Pep Rat))
+    (h : digestRecs cfg recs = some db) (hgen : cfg.gen = false) :
+    clFastaLabel cfg.tag db = true ∧ clFastaTargets cfg.tag (specTargets cfg.par cfg.tag recs) db = true := by
+  have hE := fasta_decoys cfg recs db h hgen
+  have hF := fasta_decoys_as_coded cfg recs db h hgen
+  refine ⟨?_, ?_⟩
+  · unfold clFastaLabel
+    rw [List.all_eq_true]
+    intro e he
+    obtain ⟨hne, hiff⟩ := hE e he
+    have h1 : e.proteins.isEmpty = false := by
+      cases hp : e.proteins with
+      | nil => exact absurd hp hne
+      | cons _ _ => rfl
+    have h2 : e.decoy = e.proteins.all fun a => C05.containsSub a cfg.tag := by
+      cases hd : e.decoy with
+      | true => exact (List.all_eq_true.mpr (hiff.mp hd)).symm
+      | false =>
+        cases ha : (e.proteins.all fun a => C05.containsSub a cfg.tag) with
+        | false => rfl
+        | true => rw [hiff.mpr (List.all_eq_true.mp ha)] at hd; cases hd
+    simp [h1, ← h2]
+  · unfold clFastaTargets
+    rw [List.all_eq_true]
+    intro e he
+    have hiff := hF e he
+    have h1 : e.decoy = !(specTargets cfg.par cfg.tag recs).contains e.sequence := by
+      cases hd : e.decoy with
+      | true => simpa using hiff.mp hd
+      | false =>
+        by_cases hin : e.sequence ∈ specTargets cfg.par cfg.tag recs
+        · simp [hin]
+        · rw [hiff.mpr hin] at hd; cases hd
+    have h2 : e.decoy = false → (e.proteins.all fun a => !C05.containsSub a cfg.tag) = true := by
+      intro hd
+      have hin : e.sequence ∈ specTargets cfg.par cfg.tag recs := by
+        by_contra hn; rw [hiff.mpr hn] at hd; cases hd
+      obtain ⟨groups, hg, rfl⟩ := digestRecs_some h
+      obtain ⟨e', he', rfl⟩ := mem_reorder.mp he
+      obtain ⟨_, _, hprot⟩ := mem_mergeFuel _ _ (Nat.le_refl _) e' he'
+      rw [List.all_eq_true]
+      intro x hx
+      have hx' : x ∈ e'.proteins := (mem_sortDedup _ x).mp hx
+      obtain ⟨s, hs, hk, hxs⟩ := (hprot x).mp hx'
+      obtain ⟨_, htag, _⟩ := fasta_forms hg hgen hs
+      obtain ⟨g, _, f, _, hem⟩ := mem_buildForms.mp hs
+      have hsd : s.decoy = false := by
+        cases hb : s.decoy with
+        | false => rfl
+        | true =>
+          have hnot := (mem_emit.mp hem).2 hb
+          rw [targetSet_iff hg] at hnot
+          have : s.sequence = e'.sequence := ((keyOf_eq_iff _ _).mp hk).2.1
+          rw [this] at hnot
+          exact absurd hin hnot
+      rw [htag x hxs, hsd]; rfl
+    have g1 : (e.decoy == !(specTargets cfg.par cfg.tag recs).contains e.sequence) = true := by
+      rw [← h1]; simp
+    have g2 : (e.decoy || e.proteins.all fun a => !C05.containsSub a cfg.tag) = true := by
+      cases hd : e.decoy with
+      | true => rfl
+      | false => simpa using h2 hd
+    rw [Bool.and_eq_true]; exact ⟨g1, g2⟩
+
+theorem names_clause (tag : Bytes) (gen : Bool) (db : List (Pep Rat)) :
+    ((db.zip (db.map (proteinsStr tag gen))).any fun er => specNames tag gen er.1 != er.2) = false := by
+  induction db with
+  | nil => rfl
+  | cons e db ih =>
+    simp only [List.map_cons, List.zip_cons_cons, List.any_cons, ih, Bool.or_false]
+    rw [proteinsStr_eq_specNames]; simp
+
+/-- **C07.model_meets_spec** — the model's database passes every clause the driver evaluates on the
+    implementation's database: for every FASTA text and configuration for which the database is built,
+    `specVerdict` on (the records of the text, the model's entries, the model's reported protein
+    strings) is `"ok"`. A `bad:*` verdict of the driver is therefore about the implementation's output,
+    never about the specification being unsatisfiable by the modelled algorithm. -/
+theorem model_meets_spec (cfg : Cfg Rat) (text : Bytes) (db : List (Pep Rat)) (recsAll : List (Bytes × Bytes))
+    (hb : buildDb cfg text = some db) (hp : C05.parse cfg.tag false text = some recsAll) :
+    specVerdict cfg.par cfg.tag cfg.gen recsAll db (db.map (proteinsStr cfg.tag cfg.gen)) = "ok" := by
+  obtain ⟨recs, hrecs, hdb⟩ := buildDb_some hb
+  have hn := names_clause cfg.tag cfg.gen db
+  unfold specVerdict
+  cases hgen : cfg.gen with
+  | true =>
+    rw [hgen] at hrecs hn
+    rw [parse_gen, hp] at hrecs
+    simp only [Option.map_some, Option.some.injEq] at hrecs
+    obtain ⟨c1, c2, c3, c4⟩ := gen_clauses cfg recs db hdb hgen
+    subst hrecs
+    rw [specTargets_untagged] at c1 c2 c4
+    simp [hn, c1, c2, c3, c4]
+  | false =>
+    rw [hgen] at hrecs hn
+    rw [hp] at hrecs
+    simp only [Option.some.injEq] at hrecs
+    obtain ⟨c1, c2⟩ := fasta_clauses cfg recs db hdb hgen
+    subst hrecs
+    simp [hn, c1, c2]
+
+
+/-- `>P1 AGSMK·AGSGK·AK`, `>rev_P9 KAGSK` (tagged), `>P2 AGSMK` as FASTA text -/
+def textGen : Bytes := [62, 80, 49, 10, 65, 71, 83, 77, 75, 65, 71, 83, 71, 75, 65, 75, 10, 62, 114, 101, 118, 95, 80, 57, 10, 75, 65, 71, 83, 75, 10, 62, 80, 50, 10, 65, 71, 83, 77, 75, 10]
+
+/-- non-vacuity of `model_meets_spec` (both hypotheses hold, in both modes, for a text with a tagged
+    record; with generated decoys the tagged record is ignored, otherwise it supplies decoys) -/
+example :
+    (buildDb cfgGen textGen).map (·.length) = some 6 ∧ (buildDb cfgFasta textGen).map (·.length) = some 5 ∧
+    (C05.parse cfgGen.tag false textGen).map (·.length) = some 3 := by
+  decide +kernel
+
+/-- **C07.reverse_names** — (`rev7` level) for a target `p` the reported protein string of its decoy
+    `reverse p` is the target's names, each prefixed with the tag, joined by `;` in the same order when
+    decoys are generated, and the target's own string otherwise; the target's string is its names
+    joined by `;`. -/
+theorem reverse_names {α : Type} (tag : Bytes) (gen : Bool) (p : Pep α) (hwf : WF p) (hp : p.decoy = false) :
+    proteinsStr tag true (reverse p) = joinSemi (p.proteins.map (tag ++ ·)) ∧
+    proteinsStr tag false (reverse p) = joinSemi p.proteins ∧
+    proteinsStr tag gen p = joinSemi p.proteins := by
+  obtain ⟨_, _, _, hpr, _, _, _, hd, _⟩ := reverse_preserves p hwf
+  unfold proteinsStr proteinNames
+  rw [hd, hpr, hp]
+  simp
+
+/-- **C07.decoy_names** — in the database with generated decoys the reported protein string of a decoy
+    entry is the names of its target entry, each prefixed with the tag, joined by `;` in the same order;
+    the target's string is its names unchanged. -/
+theorem decoy_names (cfg : Cfg Rat) (recs : List (Bytes × Bytes)) (db : List (Pep Rat))
+    (h : digestRecs cfg recs = some db) (hgen : cfg.gen = true) :
+    ∀ d ∈ db, d.decoy = true →
+      ∃ t ∈ db, t.decoy = false ∧ keyOf t = keyOf (mirror d) ∧
+        proteinsStr cfg.tag cfg.gen d = joinSemi (t.proteins.map (cfg.tag ++ ·)) ∧
+        proteinsStr cfg.tag cfg.gen t = joinSemi t.proteins := by
+  intro d hd hdd
+  obtain ⟨t, ht, htd, hk, _, hp, _, _⟩ := decoy_reverses_unique_target cfg recs db h hgen d hd hdd
+  refine ⟨t, ht, htd, hk, ?_, ?_⟩
+  · unfold proteinsStr proteinNames
+    rw [hdd, hgen, hp]; simp
+  · unfold proteinsStr proteinNames
+    rw [htd]; simp
+
+/-- non-vacuity of `reverse_names` / `decoy_names`: two proteins, order kept -/
+example :
+    proteinsStr [114, 101, 118, 95] true (reverse { samplePep with proteins := [[80, 49], [81]] }) =
+      [114, 101, 118, 95, 80, 49, 59, 114, 101, 118, 95, 81] ∧
+    proteinsStr [114, 101, 118, 95] true { samplePep with proteins := [[80, 49], [81]] } = [80, 49, 59, 81] := by
   decide
 
 end Sage.C07
